@@ -13,6 +13,10 @@ Spec language (JSON lists):
   ["getitem", base, idx]  ["funtasklet", base, fname]  ["lambda", base, lam_name]
   ["mapseq", fname, [input leaf exprs], step]  ["mapslice", mapseq_spec, start, stop, step]
   ["custom", "<bytes expr>", x]  ["nohash", x]  ["identity", x]  ["taskgen", fname]
+  ["rawarray", descr, shape, "<hex of the C-order buffer>"]   ndarray of any (structured) dtype; descr = dtype string or
+                                                  [[name, descr(, subshape)], ..] (layout chosen by the variant)
+  ["rettuple", base, i, n]                        i-th tasklet of return_tuple(n) applied to base
+  ["iter", base, i, n]                            i-th element of iteratetask(base, n)
 """
 import hashlib
 import json
@@ -133,6 +137,33 @@ def toks(chunks):
 
 
 # ------------------------------------------------------------------ realisation of specs
+def np_descr(d):
+    """JSON dtype descriptor -> numpy descriptor (field lists become lists of tuples)"""
+    if isinstance(d, str):
+        return d
+    out = []
+    for f in d:
+        out.append((f[0], np_descr(f[1])) + ((tuple(f[2]),) if len(f) > 2 else ()))
+    return out
+
+
+def relayout(a, rng):
+    """same values, another memory layout (C / Fortran / strided view / view at an offset)"""
+    lay = rng.choice(['C', 'F', 'strided', 'offset', 'C'])
+    if lay == 'F' and a.ndim >= 2:
+        a = np.asfortranarray(a)
+    elif lay == 'strided' and a.ndim >= 1 and a.size > 0:
+        big = np.zeros(tuple(2 * s for s in a.shape), dtype=a.dtype)
+        view = big[tuple(slice(None, None, 2) for _ in a.shape)]
+        view[...] = a
+        a = view
+    elif lay == 'offset' and a.ndim >= 1:
+        big = np.zeros((a.size + 3,), dtype=a.dtype)
+        big[3:] = a.ravel()
+        a = big[3:].reshape(a.shape)
+    return a
+
+
 def realise(spec, rng, shared):
     k = spec[0]
     if k == 'leaf':
@@ -156,20 +187,11 @@ def realise(spec, rng, shared):
         return d
     if k == 'array':
         _, dtype, shape, data = spec
-        a = np.array(data, dtype=dtype).reshape(shape)
-        lay = rng.choice(['C', 'F', 'strided', 'offset', 'C'])
-        if lay == 'F' and a.ndim >= 2:
-            a = np.asfortranarray(a)
-        elif lay == 'strided' and a.ndim >= 1 and a.size > 0:
-            big = np.zeros(tuple(2 * s for s in a.shape), dtype=a.dtype)
-            view = big[tuple(slice(None, None, 2) for _ in a.shape)]
-            view[...] = a
-            a = view
-        elif lay == 'offset' and a.ndim >= 1:
-            big = np.zeros((a.size + 3,), dtype=a.dtype)
-            big[3:] = a.ravel()
-            a = big[3:].reshape(a.shape)
-        return a
+        return relayout(np.array(data, dtype=dtype).reshape(shape), rng)
+    if k == 'rawarray':
+        _, descr, shape, hx = spec
+        a = np.frombuffer(bytes.fromhex(hx), dtype=np.dtype(np_descr(descr))).reshape(shape).copy()
+        return relayout(a, rng)
     if k == 'objarray':
         _, shape, elems = spec
         a = np.empty(len(elems), dtype=object)
@@ -194,6 +216,11 @@ def realise(spec, rng, shared):
         return Tasklet(realise(spec[1], rng, shared), FUNCS[spec[2]])
     if k == 'lambda':
         return Tasklet(realise(spec[1], rng, shared), LAMBDAS[spec[2]])
+    if k == 'rettuple':
+        base = realise(spec[1], rng, shared)
+        return jug.task.return_tuple(spec[3])(lambda: base)()[spec[2]]
+    if k == 'iter':
+        return jug.iteratetask(realise(spec[1], rng, shared), spec[3])[spec[2]]
     if k == 'mapseq':
         _, fname, inputs, step = spec
         return jug.mapreduce.map(FUNCS[fname], [eval(e, {'np': np}) for e in inputs], map_step=step)
@@ -222,6 +249,9 @@ def leaf(o):
 
 def plist(xs):
     return '[' + '; '.join(xs) + ']'
+
+
+OBJ_DTYPES = set()      # interned ids of the dtypes with dtype.hasobject seen so far
 
 
 def to_pv(o):
@@ -262,6 +292,7 @@ def to_pv(o):
         d, s = intern(pickle.dumps(o.dtype)), intern(pickle.dumps(o.shape))
         lay = 0 if o.flags['C_CONTIGUOUS'] else (1 if o.flags['F_CONTIGUOUS'] else 2)
         if o.dtype.hasobject:
+            OBJ_DTYPES.add(d)
             return '(PObjArr %d %d %s %d%%nat)' % (d, s, plist([to_pv(x) for x in o.ravel().tolist()]), lay)
         return '(PArr %d %d %d %d%%nat)' % (d, s, intern(np.ascontiguousarray(o).tobytes()), lay)
     if hasattr(o, '__jug_hash__'):
@@ -321,6 +352,7 @@ def main():
             uninstall_recorder()
             rec['hash_one_recorded'] = d3.decode()
             rec['pv'] = pv
+            rec['objdt'] = sorted(OBJ_DTYPES)
             rec['case'] = '(%s, %s)' % (pv, toks(DIGESTS[d3]))
         except Exception as e:  # reported, never silently dropped
             uninstall_recorder()
